@@ -25,6 +25,11 @@ def _enum_zip(loop, file):
         if len(inner.args) != 2 or inner.keywords:
             raise TranslationError(file, loop, 'expected zip of two sequences')
         pair = t.elts[1]
+        if isinstance(pair, ast.Name):
+            # `for j, _ in enumerate(zip(lb, ub))`: the pair itself is bound to one name; usable only if the body never reads it
+            if any(isinstance(n, ast.Name) and n.id == pair.id for b in loop.body for n in ast.walk(b)):
+                raise TranslationError(file, loop, 'the (lb, ub) pair is bound to one name that the loop body uses')
+            pair = ast.Tuple(elts=[ast.Name(id='%s#0' % pair.id, ctx=ast.Store()), ast.Name(id='%s#1' % pair.id, ctx=ast.Store())], ctx=ast.Store())
         if not (isinstance(pair, ast.Tuple) and len(pair.elts) == 2 and all(isinstance(e, ast.Name) for e in pair.elts)):
             raise TranslationError(file, loop, 'expected (lb, ub) tuple target')
         za, zb = inner.args
@@ -100,9 +105,23 @@ def check_limits_descr(repo, rel, cls, items):
     tgt = asg.targets[0]
     call = asg.value
     if not (isinstance(call, ast.Call) and isinstance(call.func, ast.Attribute) and call.func.attr == 'clip'
-            and isinstance(call.func.value, ast.Name) and call.func.value.id == 'np'
-            and len(call.args) == 3 and not call.keywords):
+            and isinstance(call.func.value, ast.Name) and call.func.value.id == 'np'):
         raise TranslationError(rel, asg, 'expected np.clip(x, lo, hi)')
+    # np.clip(a, a_min, a_max): the bounds may be given by keyword (nothing else: no out=, no dtype=)
+    cargs = list(call.args)
+    kws = {k.arg: k.value for k in call.keywords}
+    if len(cargs) > 3 or len(kws) != len(call.keywords) or set(kws) - {'a', 'a_min', 'a_max'}:
+        raise TranslationError(rel, asg, 'expected np.clip(x, lo, hi) (a_min= / a_max= allowed, nothing else)')
+    for pos, name in enumerate(('a', 'a_min', 'a_max')):
+        if name in kws:
+            if pos < len(cargs):
+                raise TranslationError(rel, asg, 'np.clip argument %s given twice' % name)
+            if pos != len(cargs):
+                raise TranslationError(rel, asg, 'np.clip arguments out of order')
+            cargs.append(kws[name])
+    if len(cargs) != 3:
+        raise TranslationError(rel, asg, 'expected np.clip(x, lo, hi)')
+    call = ast.Call(func=call.func, args=cargs, keywords=[])
     same_row = _row(tgt, obj, j) and _row(call.args[0], obj, j)
     if not same_row:
         raise TranslationError(rel, asg, 'clip must read and write <agent>.position[%s]' % j)
